@@ -58,24 +58,42 @@ Fixpoint filter_opt {A} (p : A -> option bool) (l : list A) : option (list A) :=
               end
   end.
 
-(* the infix candidate that filter_files extracts from a name; None = panic (slice inside a character) *)
-Definition infix_candidate (fixed : bytes) (name : bytes) : option (option bytes) :=
+(* the infix that filter_files extracts from a name, None if the name is not one of the family:
+   [fixed _] infix [.restart-NNNN], where the stem of a compressed file still ends with the family's suffix *)
+Definition restart_word : bytes := [114; 101; 115; 116; 97; 114; 116; 45].   (* "restart-" *)
+Definition tail_ok (tail : bytes) : bool :=
+  match strip_prefix restart_word tail with
+  | Some d => Nat.leb 4 (length d) && all_digits d
+  | None => false
+  end.
+Definition infix_candidate (sp_sfx listing_sfx : option bytes) (fixed : bytes) (name : bytes) : option bytes :=
   let stem := file_stem name in
-  let start := match fixed with [] => O | _ => S (length fixed) end in
-  if Nat.leb (length stem) start then Some None else
-  match str_from stem start with
+  let o_stem := match listing_sfx, sp_sfx with
+                | Some l, Some s => if beq l [103; 122] && negb (beq s [103; 122]) then strip_suffix (dot :: s) stem else Some stem
+                | _, _ => Some stem
+                end in
+  match o_stem with
   | None => None
-  | Some mi => Some (Some (match find_byte dot mi with Some e => firstn e mi | None => mi end))
+  | Some st =>
+    match (match fixed with [] => Some st | _ => strip_prefix (fixed ++ [uscore]) st end) with
+    | None => None
+    | Some [] => None
+    | Some rest =>
+      match find_byte dot rest with
+      | None => Some rest
+      | Some e => if tail_ok (skipn (S e) rest) then Some (firstn e rest) else None
+      end
+    end
   end.
 
-Definition filter_files (off : Z) (fixed : bytes) (files : list bytes) (flt : infix_filter) (o_sfx : option bytes)
+(* never panics any more; the option is kept for the callers *)
+Definition filter_files (off : Z) (sp_sfx : option bytes) (fixed : bytes) (files : list bytes) (flt : infix_filter) (o_sfx : option bytes)
   : option (list bytes) :=
   filter_opt (fun n =>
       if match o_sfx with Some s => ext_is n s | None => true end then
-        match infix_candidate fixed n with
-        | None => None
-        | Some None => Some false
-        | Some (Some i) => Some (filter_infix off flt i)
+        match infix_candidate sp_sfx o_sfx fixed n with
+        | None => Some false
+        | Some i => Some (filter_infix off flt i)
         end
       else Some false) files.
 
@@ -91,11 +109,11 @@ Definition app_opt {A} (a b : option (list A)) : option (list A) :=
 Definition existing_rot (off : Z) (sp : file_spec) (fixed : bytes) (f : fs) (flt : infix_filter) (sel : selector)
   : option (list bytes) :=
   let rel := related_files f fixed in
-  let r1 := if sel_plain sel then filter_files off fixed rel flt (fsfx sp) else Some [] in
-  let r2 := if sel_gz sel then filter_files off fixed rel flt (Some gz_sfx) else Some [] in
-  let r3 := if sel_rcur sel then filter_files off fixed rel (IFEq cur_infix) (fsfx sp) else Some [] in
+  let r1 := if sel_plain sel then filter_files off (fsfx sp) fixed rel flt (fsfx sp) else Some [] in
+  let r2 := if sel_gz sel then filter_files off (fsfx sp) fixed rel flt (Some gz_sfx) else Some [] in
+  let r3 := if sel_rcur sel then filter_files off (fsfx sp) fixed rel (IFEq cur_infix) (fsfx sp) else Some [] in
   let r4 := match sel_custom sel with
-            | Some c => filter_files off fixed rel (IFEq c) (fsfx sp)
+            | Some c => filter_files off (fsfx sp) fixed rel (IFEq c) (fsfx sp)
             | None => Some [] end in
   app_opt (app_opt (app_opt r1 r2) r3) r4.
 
@@ -148,7 +166,7 @@ Definition strip_gz (n : bytes) : bytes := if ext_is n gz_sfx then set_extension
 
 Definition collision_free_infix (off : Z) (sp : file_spec) (fixed : bytes) (f : fs) (infix : bytes) : option bytes :=
   let rel := related_files f fixed in
-  match filter_files off fixed rel (IFEq infix) (fsfx sp), filter_files off fixed rel (IFEq infix) (Some gz_sfx) with
+  match filter_files off (fsfx sp) fixed rel (IFEq infix) (fsfx sp), filter_files off (fsfx sp) fixed rel (IFEq infix) (Some gz_sfx) with
   | Some unc, Some cmp =>
     let sibs := filter (fun n => contains restart_tag n)
                   (filter (fun n => match fsfx sp with
